@@ -418,37 +418,42 @@ func (t *stdioClientTransport) handleResponse(rawMessage json.RawMessage) {
 		return
 	}
 
-	t.pendingMutex.RLock()
-	respChan, exists := t.pendingRequests[reqID]
-	t.pendingMutex.RUnlock()
-
-	if !exists {
-		t.logger.Warnf("No pending request for ID: %d", reqID)
-		return
-	}
-
 	// Extract result.
+	message := json.RawMessage("{}") // Empty result.
 	if response.Result != nil {
 		resultBytes, err := json.Marshal(response.Result)
 		if err != nil {
 			t.logger.Errorf("Error marshaling result: %v", err)
 			return
 		}
-		resultMessage := json.RawMessage(resultBytes)
+		message = json.RawMessage(resultBytes)
+	}
 
-		select {
-		case respChan <- &resultMessage:
-		default:
-			t.logger.Warnf("Response channel full for request ID: %d", reqID)
-		}
-	} else {
-		// Empty result.
-		emptyResult := json.RawMessage("{}")
-		select {
-		case respChan <- &emptyResult:
-		default:
-			t.logger.Warnf("Response channel full for request ID: %d", reqID)
-		}
+	known, delivered := t.deliverResponse(reqID, &message)
+	if !known {
+		t.logger.Warnf("No pending request for ID: %d", reqID)
+	} else if !delivered {
+		t.logger.Warnf("Response channel full for request ID: %d", reqID)
+	}
+}
+
+// deliverResponse hands message to the call waiting for reqID. The (non-blocking) send is made
+// while the table's read lock is held: the channel of a pending request is closed under the write
+// lock (by the waiting call when it gives up, or by close()), so a send made after releasing the
+// lock could hit a closed channel and panic the reader goroutine.
+func (t *stdioClientTransport) deliverResponse(reqID int64, message *json.RawMessage) (known, delivered bool) {
+	t.pendingMutex.RLock()
+	defer t.pendingMutex.RUnlock()
+
+	respChan, exists := t.pendingRequests[reqID]
+	if !exists {
+		return false, false
+	}
+	select {
+	case respChan <- message:
+		return true, true
+	default:
+		return true, false
 	}
 }
 
@@ -476,19 +481,11 @@ func (t *stdioClientTransport) handleErrorResponse(rawMessage json.RawMessage) {
 		return
 	}
 
-	t.pendingMutex.RLock()
-	respChan, exists := t.pendingRequests[reqID]
-	t.pendingMutex.RUnlock()
-
-	if !exists {
-		t.logger.Warnf("No pending request for error ID: %d", reqID)
-		return
-	}
-
 	// Send raw error message.
-	select {
-	case respChan <- &rawMessage:
-	default:
+	known, delivered := t.deliverResponse(reqID, &rawMessage)
+	if !known {
+		t.logger.Warnf("No pending request for error ID: %d", reqID)
+	} else if !delivered {
 		t.logger.Warnf("Response channel full for error ID: %d", reqID)
 	}
 }
